@@ -53,7 +53,44 @@ fn formats() -> Vec<(&'static str, u32, Frame)> {
         ("DF18", 18, super::rowmodel::pos_frame(18, A, 11, 2000, super::rowmodel::P2, false)),
         ("DF20", 20, frames::df20(A, frames::ac13_for_alt(7000), 0)),
         ("DF21", 21, frames::df21(A, frames::id13_for_squawk(2101), 0)),
+        // refreshing frames whose effect depends on what the row already holds (see `prelude`)
+        ("DF20-RA", 20, frames::df20(A, frames::ac13_for_alt(7000), frames::mb_bds30(1 << 13, 0, 0, 1, 0, 0))),
+        ("DF17-surface-stopped-repeat", 17, frames::df17(5, A, frames::me_surfpos(7, 1, 0, 0, 0, 0, SURF.0, SURF.1))),
     ]
+}
+
+/// CPR fields of the even surface squitter that the "stopped, repeated" format repeats
+const SURF: (u32, u32) = (93006, 51380);
+
+/// frames that are in the table before the exploration starts (the row of A exists, last heard at age 0): for the
+/// RA report a capability of 5, for the repeated surface report a capability of 4 and the decoded position
+fn prelude(fi: usize) -> Vec<Frame> {
+    match formats()[fi].0 {
+        "DF20-RA" => vec![frames::df11(5, A, 0)],
+        "DF17-surface-stopped-repeat" => vec![
+            frames::df11(4, A, 0),
+            frames::df17(5, A, frames::me_surfpos(7, 1, 0, 0, 0, 0, SURF.0, SURF.1)),
+            frames::df17(5, A, frames::me_surfpos(7, 1, 0, 0, 0, 1, 90000, 49000)),
+            frames::df17(5, A, frames::me_surfpos(7, 1, 0, 0, 0, 0, SURF.0, SURF.1)),
+        ],
+        _ => vec![],
+    }
+}
+
+fn initial(p: &Params, cfg: &Cfg) -> (Vec<Snap>, Ages) {
+    let pre = prelude(p.fi);
+    if pre.is_empty() {
+        return (vec![], Ages::new());
+    }
+    let t = crate::snap::new_table();
+    let lines: Vec<Vec<u8>> = pre.iter().map(|f| f.hex().into_bytes()).collect();
+    let o = crate::run::run_file(cfg, &crate::run::join_lines(&lines), &t);
+    assert!(o.is_ok(), "C12 prelude: {o:?}");
+    let mut a = Ages::new();
+    if pre.iter().any(|f| accepted(p, f.hex().as_bytes()).is_some()) {
+        a.insert(A, 0);
+    }
+    (crate::snap::snapshot(&t), a)
 }
 
 #[derive(Clone)]
@@ -259,7 +296,8 @@ fn run_one(ctx: &mut Ctx, p: &Params, depth: usize) {
     let ov: Vec<&str> = o.iter().map(|s| s.as_str()).collect();
     let cfg = Cfg::new(&ov);
     let actions = p.actions();
-    let model = Model { cfg: &cfg, actions: &actions, depth, init: vec![], aux0: Ages::new() };
+    let (init_rows, init_ages) = initial(p, &cfg);
+    let model = Model { cfg: &cfg, actions: &actions, depth, init: init_rows, aux0: init_ages };
     let (part, nparts) = (ctx.part, ctx.nparts);
     ctx.part = 0;
     ctx.nparts = 1;
@@ -404,7 +442,8 @@ fn replay(ctx: &mut Ctx, case: &Value) {
     let ov: Vec<&str> = o.iter().map(|s| s.as_str()).collect();
     let cfg = Cfg::new(&ov);
     let actions = p.actions();
-    let model = Model { cfg: &cfg, actions: &actions, depth, init: vec![], aux0: Ages::new() };
+    let (init_rows, init_ages) = initial(&p, &cfg);
+    let model = Model { cfg: &cfg, actions: &actions, depth, init: init_rows, aux0: init_ages };
     crate::run::say(&format!("model EXPIRY [{}]", p.label()));
     replay_path(ctx, &model, &path, |aux, _pre, a, _post| aux_step(&p, aux, a), |ctx, st| {
         for (suffix, msg) in judge(ctx, &p, &cfg, st) {
